@@ -224,6 +224,40 @@ impl World {
       }
     }
   }
+  /// verifiable evaluations issued by several server threads at once: every proof commitment t2 = s*G + c*pk_tag
+  /// must be new (a nonce shared between threads exposes the key). Evaluation does not change the key, so these
+  /// calls are not part of the compared history.
+  pub fn threaded_proofs(&mut self, i: usize, md: u8, p: &[u8], threads: usize, per: usize) {
+    let pt = Point::from(p);
+    let srv = &self.servers[i];
+    let proofs: Vec<Vec<u8>> = std::thread::scope(|sc| {
+      let hs: Vec<_> = (0..threads)
+        .map(|_| {
+          let pt = pt.clone();
+          sc.spawn(move || {
+            (0..per)
+              .filter_map(|_| srv.eval(&pt, md, true).ok())
+              .filter_map(|ev| ev.proof.map(|pr| pr.serialize_to_bincode().unwrap()))
+              .collect::<Vec<_>>()
+          })
+        })
+        .collect();
+      hs.into_iter().flat_map(|h| h.join().unwrap_or_default()).collect()
+    });
+    let pv = match combined_pv(&pk_bytes(&self.servers[i]), md) {
+      Some(v) => v,
+      None => return,
+    };
+    for pb in proofs {
+      if let (Some(c), Some(s)) = (scalar_of(&pb[..32]), scalar_of(&pb[32..])) {
+        let t2 = (s * RISTRETTO_BASEPOINT_POINT + c * pv).compress().as_bytes().to_vec();
+        if self.commitments.contains(&t2) {
+          self.fail(format!("two proofs issued by concurrent server threads (tag {}) share a commitment: nonce reuse", md));
+        }
+        self.commitments.push(t2);
+      }
+    }
+  }
   pub fn puncture(&mut self, i: usize, md: u8) {
     self.ops.push(format!("p:{}:{}", i, md));
     match guarded(|| self.servers[i].puncture(md)) {
@@ -605,6 +639,7 @@ pub fn gen_c13(seed: u64, thorough: bool, only: Option<u64>, out: &mut Out) {
     for _ in 0..3 {
       w.eval(0, md, &b, true);
     }
+    w.threaded_proofs(0, md, &b, 4, 3);
     let pk = w.servers[0].get_public_key();
     let pkb = pk.serialize_to_bincode().unwrap();
     let pk2b = w2.servers[0].get_public_key().serialize_to_bincode().unwrap();
